@@ -1,5 +1,89 @@
+//! Hooked into `crates/step_sim/src/agents/random_agent.rs` (child module: builds the agent
+//! directly).  C16 K3: one whole `RandomAgents::update` for one agent slot, with
+//! `Env::place_order` / `Env::cancel_order` replaced by logging stand-ins.
 #![allow(dead_code)]
-#[cfg(not(kani))]
-pub fn lookup(_name: &str) -> Option<fn()> {
-    None
+#![allow(clippy::all)]
+use super::*;
+use crate::agents::noise_agent::verif_proofs::prob;
+use crate::env::verif_proofs::{cancelled, placed};
+use crate::verif::*;
+use bourse_book::verif::book::*;
+#[allow(unused_imports)]
+use bourse_book::verif::src::*;
+use bourse_book::{vcheck, vcover, vharnesses};
+
+/// `rng.gen::<f32>()` as compiled (rand 0.8.5 `Standard`): 24 random bits scaled into [0, 1)
+pub fn f32_of_word(w: u32) -> f32 {
+    (w >> 8) as f32 * (1.0 / 16_777_216.0)
+}
+
+pub fn random_update<const T: u32>(rate_mode: u8, lo: u32, hi: u32, vlo: u32, vhi: u32) {
+    // an environment over one arbitrary order (any status) that the slot may be holding
+    let p: Plain<2> = gen_plain::<2>(1, GenCfg { tick: T, ..OFF });
+    let book = build::<2, 10>(&p, 0);
+    let mut env: Env = Env::verif_from_book(any_u64(), book);
+    let holds = any_bool();
+    // (ranges are concrete per harness: the index draw multiplies the word by the range, and a
+    // symbolic x symbolic 64-bit product is beyond the SAT back end)
+    let rate = prob(rate_mode);
+    let mut agent = RandomAgents { orders: vec![if holds { Some(0) } else { None }], tick_range: (lo, hi), vol_range: (vlo, vhi), tick_size: T, activity_rate: rate };
+    // generator words: activity draw, then (side, tick, volume) draws accepted at first attempt
+    let mut rng = SymRng::new();
+    let w_act = rng.push_u32();
+    let w_side = rng.push_u32();
+    let w_tick = rng.push_u32();
+    let w_vol = rng.push_u32();
+    assume(accepted_u32(w_side, 2) && accepted_u32(w_tick, hi - lo) && accepted_u32(w_vol, vhi - vlo));
+    rng.strict = true;
+    let was_active = holds && entry_order(&p.e[0]).status == Status::Active;
+
+    agent.update(&mut env, &mut rng);
+
+    let (plog, np) = placed();
+    let (clog, nc) = cancelled();
+    let acts = f32_of_word(w_act) < rate;
+    match rate_mode {
+        0 => vcheck!(!acts, "RANDOM.activity_rate_zero_never_acts"),
+        1 => vcheck!(acts, "RANDOM.activity_rate_one_always_acts"),
+        _ => {}
+    }
+    vcheck!(!rng.overdrawn, "RANDOM.draws_only_the_documented_words");
+    if !acts {
+        vcheck!(np == 0 && nc == 0 && agent.orders[0] == if holds { Some(0) } else { None } && rng.calls == 1, "RANDOM.inactive_agent_does_nothing");
+    } else if was_active {
+        vcheck!(np == 0 && nc == 1 && clog[0] == 0, "RANDOM.cancels_only_its_own_active_order");
+        vcheck!(agent.orders[0].is_none(), "RANDOM.slot_cleared_after_cancel");
+    } else {
+        vcheck!(nc == 0 && np == 1, "RANDOM.places_exactly_one_order_when_it_holds_no_live_order");
+        if np == 1 {
+            let o = plog[0];
+            let in_range = match o.price {
+                Some(px) => px % T == 0 && px / T >= lo && px / T < hi,
+                None => false,
+            };
+            vcheck!(in_range, "RANDOM.limit_price_is_tick_size_times_a_tick_inside_the_configured_range");
+            vcheck!(o.vol >= vlo && o.vol < vhi, "RANDOM.volume_inside_the_configured_range");
+            vcheck!(o.trader == 0, "RANDOM.trader_id_is_the_agent_index");
+            vcheck!(agent.orders[0] == Some(0), "RANDOM.slot_holds_the_new_order_id");
+        }
+    }
+    vcover!(acts && was_active, "cover.cancels");
+    vcover!(acts && !was_active && np == 1 && plog[0].bid, "cover.places_a_bid");
+    core::mem::forget(env);
+    core::mem::forget(agent);
+}
+
+vharnesses! {
+    #[cfg_attr(kani, kani::unwind(12))]
+    #[cfg_attr(kani, kani::stub(crate::Env::place_order, crate::Env::verif_log_place_order))]
+    #[cfg_attr(kani, kani::stub(crate::Env::cancel_order, crate::Env::verif_log_cancel_order))]
+    fn c16_random_update_always_tick3() { random_update::<3>(1, 10, 37, 1, 1000) }
+    #[cfg_attr(kani, kani::unwind(12))]
+    #[cfg_attr(kani, kani::stub(crate::Env::place_order, crate::Env::verif_log_place_order))]
+    #[cfg_attr(kani, kani::stub(crate::Env::cancel_order, crate::Env::verif_log_cancel_order))]
+    fn c16_random_update_never_tick1() { random_update::<1>(0, 10, 20, 20, 30) }
+    #[cfg_attr(kani, kani::unwind(12))]
+    #[cfg_attr(kani, kani::stub(crate::Env::place_order, crate::Env::verif_log_place_order))]
+    #[cfg_attr(kani, kani::stub(crate::Env::cancel_order, crate::Env::verif_log_cancel_order))]
+    fn c16_random_update_interior_tick10() { random_update::<10>(2, 5, 6, 100, 101) }
 }
